@@ -407,21 +407,33 @@ Proof.
   cbn [flat_map]. rewrite forallb_app, (one_line_block_lines b Wb). now apply IH.
 Qed.
 
-Lemma parse_render J strictb allow d :
+Lemma run_doc J strictb allow d :
   wf_doc d = true ->
-  parse_changelog J strictb allow None (InStr (render d)) = Ok (doc_state d).
+  run J strictb allow None init_pst (doc_lines d) = Ok (doc_state d).
 Proof.
-  intros H. destruct (wf_doc_spec d H) as (Hl & Hne & HW).
-  unfold parse_changelog. rewrite (render_not_blank d H).
-  unfold render.
-  change (flat_map (fun l : list N => l ++ [10%N]) (doc_lines d)) with (flat_map nl (doc_lines d)).
-  rewrite (str_lines_render _ (doc_lines_one_line d H)). unfold doc_lines.
+  intros H. destruct (wf_doc_spec d H) as (Hl & Hne & HW). unfold doc_lines.
   change init_pst with (hstate [] [] FirstHeading).
   rewrite (run_leading J strictb allow _ _ _ Hl). cbn [app].
   rewrite <- (app_nil_r (flat_map render_block_lines (w_blocks d))).
   rewrite (run_blocks J strictb allow _ _ _ _ _ HW (or_introl eq_refl)). cbn [app].
   unfold doc_state. destruct (w_blocks d); [congruence|]. reflexivity.
 Qed.
+
+Lemma parse_render J strictb allow d :
+  wf_doc d = true ->
+  parse_changelog J strictb allow None (InStr (render d)) = Ok (doc_state d).
+Proof.
+  intros H. unfold parse_changelog. rewrite (render_not_blank d H).
+  unfold render.
+  change (flat_map (fun l : list N => l ++ [10%N]) (doc_lines d)) with (flat_map nl (doc_lines d)).
+  rewrite (str_lines_render _ (doc_lines_one_line d H)). now apply run_doc.
+Qed.
+
+(** the same text given as a list of lines (without line ends) *)
+Lemma parse_lines J strictb allow d :
+  wf_doc d = true ->
+  parse_changelog J strictb allow None (InLines (doc_lines d)) = Ok (doc_state d).
+Proof. intros H. unfold parse_changelog. now apply run_doc. Qed.
 
 Lemma format_doc_state d :
   format_changelog false (cl_of (doc_state d)) = Ok (render d).
@@ -483,4 +495,17 @@ Theorem wf_roundtrip_any_mode J strictb allow t :
 Proof.
   intros H. destruct (wf_changelog_doc t H) as (d & _ & Hd & <-).
   exists (doc_state d). split; [now apply parse_render|]. split; [reflexivity|apply format_doc_state].
+Qed.
+
+(** a well-formed text given as its list of lines (the other input form of the constructor) *)
+Theorem wf_roundtrip_lines J strictb allow d :
+  wf_doc d = true ->
+  exists st, parse_changelog J strictb allow None (InLines (doc_lines d)) = Ok st
+             /\ p_warn st = []
+             /\ format_changelog false (cl_of st) = Ok (render d)
+             /\ map exposed (p_blocks st) = map (fun b => Some (expose b)) (w_blocks d).
+Proof.
+  intros H. exists (doc_state d). split; [now apply parse_lines|]. split; [reflexivity|].
+  split; [apply format_doc_state|].
+  unfold doc_state, hstate. cbn [p_blocks]. rewrite map_map. apply map_ext. intros b. apply exposed_block_of_w.
 Qed.
